@@ -30,7 +30,7 @@ ENUM_SIMS = ['basic_discrete_SIR', 'percolation_based_discrete_SIR', 'basic_disc
 def gen_cases(tier, seed):
     q = tier == 'quick'
     out = []
-    n = 3000 if q else 400000
+    n = 10000 if q else 400000
     kinds = ['table', 'table', 'trials', 'trials_sis', 'perc']
     for k in range(n):
         cs = case_seed(seed, PID, k)
